@@ -22,8 +22,8 @@ fn certified_noise(spec: &TableSpec, line: &str, doc: Option<&JV>, is_doc_known:
     let accepts: Vec<Accept> = spec.cols.iter().enumerate().map(|(ci, c)| if matches!(c.src, Src::Json(_)) { expect_json_column(c, doc) } else { expect_regex_column(spec, ci, &ctx) }).collect();
     let only_null = |a: &Accept| a.vals.iter().all(|v| v.is_null());
     if accepts.iter().all(only_null) { return true; }
-    if accepts.iter().all(|a| a.situation == "pattern-unmatched") && spec.cols.iter().all(|c| !matches!(c.modifier, Modifier::Default(_))) { return true; }
-    spec.cols.iter().zip(accepts.iter()).any(|(c, a)| c.modifier == Modifier::NotNull && only_null(a))
+    if accepts.iter().all(|a| a.situation == "pattern-unmatched") && spec.cols.iter().all(|c| c.default_expr().is_none()) { return true; }
+    spec.cols.iter().zip(accepts.iter()).any(|(c, a)| c.not_null() && only_null(a))
 }
 
 impl Monitor for C06 {
